@@ -5,8 +5,9 @@ use super::PropResult;
 use crate::core::*;
 use crate::model::calendar as cal;
 use crate::model::instant::*;
+use super::diff::*;
 use astrolabe::errors::AstrolabeError;
-use astrolabe::{Date, DateTime, DateUtilities, Offset, OffsetUtilities, Time, TimeUtilities};
+use astrolabe::{DateTime, DateUtilities, TimeUtilities};
 use serde_json::{json, Value};
 
 pub const DT_SETTERS: [&str; 10] = ["set_year", "set_month", "set_day", "set_day_of_year", "set_hour", "set_minute", "set_second", "set_milli", "set_micro", "set_nano"];
@@ -95,24 +96,6 @@ pub fn model_clear(local: i128, k: usize) -> i128 {
     }
 }
 
-type Getters = (i32, u32, u32, u32, u32, u32, u32, u32, u32, u32);
-
-fn getters(dt: &DateTime) -> Getters {
-    (dt.year(), dt.month(), dt.day(), dt.day_of_year(), dt.hour(), dt.minute(), dt.second(), dt.milli(), dt.micro(), dt.nano())
-}
-
-fn model_getters(local: i128) -> (i64, u32, u32, u32, u32, u32, u32, u32, u32, u32) {
-    let f = fields(local);
-    (f.year, f.month, f.dom, cal::day_of_year(f.day), f.hour, f.minute, f.second, f.subsec / 1_000_000, f.subsec / 1_000, f.subsec)
-}
-
-fn getters_match(g: &Getters, m: &(i64, u32, u32, u32, u32, u32, u32, u32, u32, u32)) -> Vec<&'static str> {
-    let names = ["year", "month", "day", "day_of_year", "hour", "minute", "second", "milli", "micro", "nano"];
-    let gv = [g.0 as i64, g.1 as i64, g.2 as i64, g.3 as i64, g.4 as i64, g.5 as i64, g.6 as i64, g.7 as i64, g.8 as i64, g.9 as i64];
-    let mv = [m.0, m.1 as i64, m.2 as i64, m.3 as i64, m.4 as i64, m.5 as i64, m.6 as i64, m.7 as i64, m.8 as i64, m.9 as i64];
-    (0..10).filter(|k| gv[*k] != mv[*k]).map(|k| names[k]).collect()
-}
-
 fn offset_class(i: i128, off: i32) -> &'static str {
     if off == 0 {
         "offset0"
@@ -146,25 +129,28 @@ fn judge_dt_set(rec: &mut Rec, i: i128, off: i32, f: usize, v: i64) {
     if vclass == "value/valid-but-result-at-range-end(skipped)" {
         return;
     }
-    let r = trap(|| {
-        let dt = mk_off(i, off);
-        apply_dt_setter(&dt, f, v).map(|res| (read(&res), offset_secs(&res), getters(&res)))
-    });
+    let Some((dt, _)) = sane_value(i, off) else {
+        rec.bin(SKIP_START);
+        return;
+    };
+    let r = trap(|| apply_dt_setter(&dt, f, v));
     let wit = |obs: Value| json!({"start_utc": show(i), "offset": off, "start_local": show(local), "call": format!("{}({})", name, v), "model_local_result": exp_local.map(show).map_err(|_| "must be refused"), "observed": obs});
     match (r, exp) {
         (Err(p), _) => rec.violation(format!("C09|datetime|{}|panic|{},{}|{}", name, p.class, p.site(), vclass), || wit(p.to_json())),
-        (Ok(Ok((got, o, g))), Ok((el, eu))) => {
-            let mg = model_getters(el);
-            let diff = getters_match(&g, &mg);
-            if got != eu {
-                rec.violation(format!("C09|datetime|{}|wrong-instant|{}", name, oc), || wit(json!({"result_utc": show(got), "result_local": show(got + off as i128 * NS), "getters": format!("{:?}", g)})));
-            } else if !diff.is_empty() {
-                rec.violation(format!("C09|datetime|{}|getter-mismatch|{}", name, oc), || wit(json!({"getters": format!("{:?}", g), "model": format!("{:?}", mg)})));
-            } else if o != Some(off) {
-                rec.violation(format!("C09|datetime|{}|offset-changed", name), || wit(json!({"offset": format!("{:?}", o)})));
+        (Ok(Ok(res)), Ok((_, eu))) => match diff_with_expected(&res, eu, off) {
+            Ok(Diff::Skip) => rec.bin(SKIP_EXPECTED),
+            Ok(Diff::Same) => {}
+            Ok(Diff::Differs(g, e)) => {
+                let kind = match g.first_difference(&e) {
+                    "wrong-instant" => "wrong-instant",
+                    "offset-changed" => "offset-changed",
+                    _ => "getter-mismatch",
+                };
+                rec.violation(format!("C09|datetime|{}|{}|{}", name, kind, oc), || wit(json!({"result_reads": g.to_json(), "independently_built_expected_reads": e.to_json()})));
             }
-        }
-        (Ok(Ok((got, _, _))), Err(())) => rec.violation(format!("C09|datetime|{}|accepted-invalid|{}", name, oc), || wit(json!({"result_utc": show(got), "result_local": show(got + off as i128 * NS)}))),
+            Err(p) => rec.violation(format!("C09|datetime|{}|result-unreadable|{},{}", name, p.class, p.site()), || wit(p.to_json())),
+        },
+        (Ok(Ok(res)), Err(())) => rec.violation(format!("C09|datetime|{}|accepted-invalid|{}", name, oc), || wit(json!({"result_utc": trap(|| show(read(&res))).unwrap_or_default()}))),
         (Ok(Err(e)), Ok(_)) => rec.violation(format!("C09|datetime|{}|refused-valid|{}", name, oc), || wit(json!({"error": e.to_string()}))),
         (Ok(Err(e)), Err(())) => {
             if !matches!(e, AstrolabeError::OutOfRange(_)) {
@@ -192,26 +178,8 @@ fn judge_dt_clear(rec: &mut Rec, i: i128, off: i32, k: usize) {
         return;
     }
     rec.bin("clear/judged");
-    let r = trap(|| {
-        let dt = mk_off(i, off);
-        let res = apply_dt_clear(&dt, k);
-        (read(&res), offset_secs(&res), getters(&res))
-    });
     let wit = |obs: Value| json!({"start_utc": show(i), "offset": off, "start_local": show(local), "call": name, "model_local_result": show(el), "observed": obs});
-    match r {
-        Err(p) => rec.violation(format!("C09|datetime|{}|panic|{},{}", name, p.class, p.site()), || wit(p.to_json())),
-        Ok((got, o, g)) => {
-            let mg = model_getters(el);
-            let diff = getters_match(&g, &mg);
-            if got != eu {
-                rec.violation(format!("C09|datetime|{}|wrong-instant|{}", name, oc), || wit(json!({"result_utc": show(got), "result_local": show(got + off as i128 * NS)})));
-            } else if !diff.is_empty() {
-                rec.violation(format!("C09|datetime|{}|getter-mismatch|{}", name, oc), || wit(json!({"getters": format!("{:?}", g)})));
-            } else if o != Some(off) {
-                rec.violation(format!("C09|datetime|{}|offset-changed", name), || wit(json!({"offset": format!("{:?}", o)})));
-            }
-        }
-    }
+    judge_dt(rec, &format!("C09|datetime|{}", name), (i, off), Expect::Value(eu, off), |dt| Ran::Returned(apply_dt_clear(dt, k)), wit);
     if rec.want_sample() {
         rec.sample(|| wit(json!("(see verdict)")));
     }
@@ -229,12 +197,13 @@ fn judge_date_op(rec: &mut Rec, day: i64, f: usize, v: i64) {
         if !(cal::MIN_DAY..=cal::MAX_DAY).contains(&d) {
             rec.bin("date/result-out-of-range");
             // must then be refused (setter) — a representable-range refusal
-            let r = trap(|| {
-                let dt = Date::from_timestamp((day - cal::DAYS_TO_1970) * 86_400);
-                match f {
-                    0 => dt.set_year(v as i32).map(|x| x.timestamp()),
-                    _ => Ok(0),
-                }
+            let Some(dt) = sane_date(day) else {
+                rec.bin(SKIP_START);
+                return;
+            };
+            let r = trap(|| match f {
+                0 => dt.set_year(v as i32).map(|x| x.timestamp()),
+                _ => Ok(0),
             });
             if let Ok(Ok(ts)) = r {
                 if f == 0 {
@@ -245,18 +214,18 @@ fn judge_date_op(rec: &mut Rec, day: i64, f: usize, v: i64) {
         }
     }
     rec.bin(if exp_day.is_ok() { "date/valid" } else { "date/invalid" });
-    let r = trap(|| {
-        let dt = Date::from_timestamp((day - cal::DAYS_TO_1970) * 86_400);
-        let res = match f {
-            0 => dt.set_year(v as i32),
-            1 => dt.set_month(v as u32),
-            2 => dt.set_day(v as u32),
-            3 => dt.set_day_of_year(v as u32),
-            4 => Ok(dt.clear_until_year()),
-            5 => Ok(dt.clear_until_month()),
-            _ => Ok(dt.clear_until_day()),
-        };
-        res.map(|x| (x.timestamp() / 86_400 + cal::DAYS_TO_1970, x.as_ymd(), x.day_of_year()))
+    let Some(dt) = sane_date(day) else {
+        rec.bin(SKIP_START);
+        return;
+    };
+    let r = trap(|| match f {
+        0 => dt.set_year(v as i32),
+        1 => dt.set_month(v as u32),
+        2 => dt.set_day(v as u32),
+        3 => dt.set_day_of_year(v as u32),
+        4 => Ok(dt.clear_until_year()),
+        5 => Ok(dt.clear_until_month()),
+        _ => Ok(dt.clear_until_day()),
     });
     let wit = |obs: Value| {
         let s = cal::ymd(day);
@@ -264,13 +233,13 @@ fn judge_date_op(rec: &mut Rec, day: i64, f: usize, v: i64) {
     };
     match (r, exp_day) {
         (Err(p), _) => rec.violation(format!("C09|date|{}|panic|{},{}", name, p.class, p.site()), || wit(p.to_json())),
-        (Ok(Ok((got, ymd, doy))), Ok(e)) => {
-            let m = cal::ymd(e);
-            if got != e || (ymd.0 as i64, ymd.1, ymd.2) != m || doy != cal::day_of_year(e) {
-                rec.violation(format!("C09|date|{}|wrong-value|era={}", name, if day < 0 { "BC" } else { "AD" }), || wit(json!({"day": got, "ymd": [ymd.0, ymd.1, ymd.2]})));
-            }
-        }
-        (Ok(Ok((got, _, _))), Err(())) => rec.violation(format!("C09|date|{}|accepted-invalid", name), || wit(json!({"day": got}))),
+        (Ok(Ok(res)), Ok(e)) => match diff_date(&res, e) {
+            Ok(DateDiff::Skip) => rec.bin(SKIP_EXPECTED),
+            Ok(DateDiff::Same) => {}
+            Ok(DateDiff::Differs(got, exp)) => rec.violation(format!("C09|date|{}|wrong-value|era={}", name, if day < 0 { "BC" } else { "AD" }), || wit(json!({"result_reads": got, "independently_built_expected_reads": exp}))),
+            Err(p) => rec.violation(format!("C09|date|{}|result-unreadable|{},{}", name, p.class, p.site()), || wit(p.to_json())),
+        },
+        (Ok(Ok(res)), Err(())) => rec.violation(format!("C09|date|{}|accepted-invalid", name), || wit(json!({"result_reads": trap(|| date_reads(&res)).unwrap_or_default()}))),
         (Ok(Err(e)), Ok(_)) => rec.violation(format!("C09|date|{}|refused-valid", name), || wit(json!({"error": e.to_string()}))),
         (Ok(Err(e)), Err(())) => {
             if !matches!(e, AstrolabeError::OutOfRange(_)) {
@@ -289,28 +258,24 @@ fn judge_time_op(rec: &mut Rec, n: u64, off: i32, f: usize, v: u32) {
     rec.bin(if exp.is_some() { "time/valid" } else { "time/invalid" });
     rec.bin(if off == 0 { "time/offset0" } else if (n as i128 + off as i128 * NS).div_euclid(DN as i128) != 0 { "time/offset-wraps-midnight" } else { "time/offset-same-day" });
     rec.nontrivial(hash_i128s(&[n as i128, off as i128, 300 + f as i128, v as i128]));
-    let r = trap(|| {
-        let t = Time::from_nanos(n).unwrap().set_offset(Offset::Fixed(off));
-        let res = if f < 6 { apply_time_setter(&t, f, v) } else { Ok(apply_time_clear(&t, f - 6)) };
-        res.map(|x| (x.as_nanos(), time_offset_secs(&x), (x.hour(), x.minute(), x.second(), x.milli(), x.micro(), x.nano())))
-    });
+    let Some((t, _)) = sane_time(n, off) else {
+        rec.bin(SKIP_START);
+        return;
+    };
+    let r = trap(|| if f < 6 { apply_time_setter(&t, f, v) } else { Ok(apply_time_clear(&t, f - 6)) });
     let wit = |obs: Value| json!({"time_as_nanos": n, "offset": off, "local_nanos": m.local(), "call": if f < 6 { format!("Time::{}({})", name, v) } else { format!("Time::{}()", name) }, "model_as_nanos": exp, "observed": obs});
     match (r, exp) {
         (Err(p), _) => rec.violation(format!("C09|time|{}|panic|{},{}", name, p.class, p.site()), || wit(p.to_json())),
-        (Ok(Ok((got, o, g))), Some(e)) => {
-            let l = TModel { n: e, off }.local();
-            let s = (l / 1_000_000_000) as u32;
-            let sub = (l % 1_000_000_000) as u32;
-            let mg = (s / 3600, s / 60 % 60, s % 60, sub / 1_000_000, sub / 1_000, sub);
-            if got != e {
-                rec.violation(format!("C09|time|{}|wrong-value", name), || wit(json!({"as_nanos": got})));
-            } else if g != mg {
-                rec.violation(format!("C09|time|{}|getter-mismatch", name), || wit(json!({"getters": format!("{:?}", g), "model": format!("{:?}", mg)})));
-            } else if o != Some(off) {
-                rec.violation(format!("C09|time|{}|offset-changed", name), || wit(json!({"offset": format!("{:?}", o)})));
+        (Ok(Ok(res)), Some(e)) => match diff_time(&res, e, off) {
+            Ok(TDiff::Skip) => rec.bin(SKIP_EXPECTED),
+            Ok(TDiff::Same) => {}
+            Ok(TDiff::Differs(g, x)) => {
+                let kind = if g.as_nanos != x.as_nanos { "wrong-value" } else if g.off != x.off { "offset-changed" } else { "getter-mismatch" };
+                rec.violation(format!("C09|time|{}|{}", name, kind), || wit(json!({"result_reads": format!("{:?}", g), "independently_built_expected_reads": format!("{:?}", x)})));
             }
-        }
-        (Ok(Ok((got, _, _))), None) => rec.violation(format!("C09|time|{}|accepted-invalid", name), || wit(json!({"as_nanos": got}))),
+            Err(p) => rec.violation(format!("C09|time|{}|result-unreadable|{},{}", name, p.class, p.site()), || wit(p.to_json())),
+        },
+        (Ok(Ok(res)), None) => rec.violation(format!("C09|time|{}|accepted-invalid", name), || wit(json!({"as_nanos": trap(|| res.as_nanos()).ok()}))),
         (Ok(Err(e)), Some(_)) => rec.violation(format!("C09|time|{}|refused-valid", name), || wit(json!({"error": e.to_string()}))),
         (Ok(Err(e)), None) => {
             if !matches!(e, AstrolabeError::OutOfRange(_)) {
